@@ -85,19 +85,23 @@ def setData {β : Type} (s : State β) (d : List (Nat × β)) : State β :=
 inductive Op (β : Type) where
   | ask (n : Nat) (commit : Bool)
   | tell (i : Nat) (v : β)
+  | tellPending (i : Nat)
   | removeUnfinished
 deriving Repr
 
 def step {β : Type} (s : State β) : Op β → State β
   | .ask n c => (ask s n c).2
   | .tell i v => tell s i v
+  | .tellPending i => tellPending s i
   | .removeUnfinished => removeUnfinished s
 
 def run {β : Type} (s : State β) (ops : List (Op β)) : State β := ops.foldl step s
 
-/-- the property's quantifier: tells carry an index of the sequence -/
+/-- the property's quantifier: tells carry an index of the sequence; an explicit
+`tell_pending` marks an element that has no result yet -/
 def ValidOp {β : Type} (s : State β) : Op β → Prop
   | .tell i _ => i < s.ntotal
+  | .tellPending i => i < s.ntotal ∧ i ∉ keys s
   | _ => True
 
 /-- indices handed out by committing asks along a run (ghost trace) -/
